@@ -87,6 +87,16 @@ def run(tier):
                 if mode == "sync": sc["mode"] = "sync"
                 if tables: sc["tables"] = tables
                 scen.append(sc)
+    # PrintTable() next to the other consumers: the table printer is a sink like any other - the rows the other sinks hold stay as delivered
+    for name, sql, modes, tables in QUERIES:
+        if name not in ("projection", "star", "counting", "case", "analytic_select", "join", "array_fns"):
+            continue
+        for rep in range(2 if quick else 30):
+            rows = [nested_row(rng, i + 1) for i in range(rng.choice([4, 6]))]
+            sc = {"meta": {"fam": "iso", "q": name + "+printtable"}, "sql": sql, "rows": rows, "printtable": True}
+            if "sync" in modes and rep % 2: sc["mode"] = "sync"
+            if tables: sc["tables"] = tables
+            scen.append(sc)
     seqfam.run_scenarios(res, scen, "TraceIso", spec_dir=PIPE, tag="iso")
     # (b) two instances in one process
     pairs = []
